@@ -77,7 +77,23 @@ def gen_case(rng, tier):
             op["seed"] = rng.randrange(10 ** 6)
             op["n_jobs"] = rng.choice((None, None, 2, 3))
         ops.append(op)
-    return {"inputs": {"cfg": cfg, "dgms": dgms}, "ops": ops,
+    # a second imager of the *same resolution* on a shifted / rescaled region, used in the same plan
+    # (and therefore by the same reused workers)
+    cfg2 = dict(cfg)
+    if rng.random() < 0.5:
+        sh = rng.choice((0.37, -0.5, 1.0)) * cfg["pixel_size"]
+        cfg2["birth_range"] = [cfg["birth_range"][0] + sh, cfg["birth_range"][1] + sh]
+    else:
+        f = rng.choice((2.0, 0.5))
+        cfg2["pixel_size"] = cfg["pixel_size"] * f
+        cfg2["birth_range"] = [cfg["birth_range"][0], cfg["birth_range"][0] + (cfg["birth_range"][1] - cfg["birth_range"][0]) * f]
+        cfg2["pers_range"] = [cfg["pers_range"][0], cfg["pers_range"][0] + (cfg["pers_range"][1] - cfg["pers_range"][0]) * f]
+    for _ in range(rng.randint(0, 3)):
+        k = rng.randint(1, nd)
+        ops.insert(rng.randrange(len(ops) + 1), {"op": "collection", "skew": True, "imager": 2,
+                                                 "ds": [rng.randrange(nd) for _ in range(k)],
+                                                 "n_jobs": rng.choice((None, 2, 2, 3)), "container": "list"})
+    return {"inputs": {"cfg": cfg, "cfg2": cfg2, "dgms": dgms}, "ops": ops,
             "config": {"parallel_mode": rng.choice(MODES), "p_switch": rng.choice((3, 8, 30))}}
 
 
@@ -120,6 +136,12 @@ def _run(case, sched, world, cfg, dg_json):
     corr = cfg["kernel"] in ("corr", "corr-high")
     abs_tol = (1e-7 if corr else 1e-12) * totw
     state0 = json.dumps(ic.imager_state(im), sort_keys=True)
+    cfg2 = case["inputs"].get("cfg2")
+    im2 = None
+    base2 = None
+    if cfg2 is not None and any(o.get("imager") == 2 for o in case["ops"]):
+        ic.check_config(cfg2)
+        im2 = ic.make_imager(cfg2)
     evals = 0
     par_calls = 0
 
@@ -168,9 +190,14 @@ def _run(case, sched, world, cfg, dg_json):
         base.append(img)
         sched.note("base%d %s" % (i, hashlib.sha1(np.round(img, 12).tobytes()).hexdigest()[:12]))
 
+    if im2 is not None:
+        base2 = [np.asarray(call("transform(single)", im2.transform, d, skew=True), float) for d in D]
     for opi, op in enumerate(case["ops"]):
         kind = op.get("op")
         nj = op.get("n_jobs")
+        use2 = op.get("imager") == 2 and im2 is not None and kind == "collection"
+        imx, basex = (im2, base2) if use2 else (im, base)
+        resx = tuple(imx.resolution)
         if nj is not None and (not isinstance(nj, int) or nj == 0):
             raise InvalidCase("n_jobs")
         site = "transform(%s,n_jobs=%s)" % (kind, "None" if nj is None else ("1" if nj == 1 else ">=2"))
@@ -179,14 +206,16 @@ def _run(case, sched, world, cfg, dg_json):
             if not ids or any(not isinstance(i, int) or not 0 <= i < len(D) for i in ids):
                 raise InvalidCase("ids")
             coll = [D[i] for i in ids]
-            want = [base[i] for i in ids]
+            want = [basex[i] for i in ids]
             if kind == "empty-in-collection":
                 at = min(int(op.get("empty_at", 0)), len(coll))
                 coll.insert(at, np.zeros((0, 2)))
-                want.insert(at, np.zeros(res))
+                want.insert(at, np.zeros(resx))
             if op.get("container") == "tuple":
                 coll = tuple(coll)
-            out = call(site, im.transform, coll, skew=True, n_jobs=nj)
+            if use2:
+                site = site + "[second-imager-same-resolution]"
+            out = call(site, imx.transform, coll, skew=True, n_jobs=nj)
             if nj is not None and nj != 1 and len(coll) > 1:
                 par_calls += 1
             if not isinstance(out, (list, tuple)) and not (isinstance(out, np.ndarray) and out.ndim == 3):
@@ -297,7 +326,8 @@ def _run(case, sched, world, cfg, dg_json):
         "key": hashlib.sha1(json.dumps([cfg, dg_json, case["ops"]], sort_keys=True).encode()).hexdigest()[:16],
         "nontrivial": nonempty >= 2 and par_calls >= 1,
         "probes": {"mode:" + world.mode: 1, "kernel:" + cfg["kernel"]: 1, "weight:" + cfg["weight"]: 1,
-                   "nonneg_weights": int(nonneg), "plans_with_worker_reuse": int(st["worker_reuse"] > 0)},
+                   "nonneg_weights": int(nonneg), "plans_with_worker_reuse": int(st["worker_reuse"] > 0),
+                   "plans_with_second_imager": int(im2 is not None)},
         "faults": dict(st),
     }
 
